@@ -99,6 +99,13 @@ Definition monitor_failures (cs : list case) : list (N * list N) :=
     | c :: t => match dedup_N (monitor c) with [] => go (N.succ i) t | cl => (i, cl) :: go (N.succ i) t end
     end in go 0%N cs.
 
+(* the hypothesis of C04_selection_is_documented_precedence_*: a directive without a block has no children, at every depth *)
+Fixpoint wf_deepb (fuel : nat) (ns : list node) : bool :=
+  match fuel with
+  | O => false
+  | S f => forallb (fun n => match n with Node _ _ _ blk ch => (blk || match ch with [] => true | _ => false end) && wf_deepb f ch end) ns
+  end.
+
 Definition tag (c : case) : N :=
   (if c_loaded c then 1 else 0)
   + (if existsb (fun mm => match obs_of (fst mm) with (None, _) => true | _ => false end) (c_msgs c) then 2 else 0)
@@ -106,5 +113,6 @@ Definition tag (c : case) : N :=
   + (if existsb (fun mm => existsb (fun o => match snd o with Some _ => true | None => false end) (snd (obs_of (fst mm)))) (c_msgs c) then 8 else 0)
   + (if existsb (fun n => match n with Node DSource _ _ _ _ | Node DSourceIn _ _ _ _ => true | _ => false end) (c_nodes c) then 16 else 0)
   + (match c_rwr c with [] => 0 | _ => 32 end)
-  + (match c_tbl c with [] => 0 | _ => 64 end).
+  + (match c_tbl c with [] => 0 | _ => 64 end)
+  + (if wf_deepb PFUEL (c_nodes c) then 128 else 0).
 Definition tags (cs : list case) : list N := map tag cs.
